@@ -9,6 +9,7 @@
 
 #include "atomic_wrapper.h"
 #include "clock.h"
+#include "verif_hooks.h"
 
 namespace yakushima {
 
@@ -33,13 +34,16 @@ public:
         bool desired{};
         for (;;) {
             for (size_t i = 1;; ++i) {
+                YK_VP(YK_LOAD, YK_C_TREE, &root_lock_);
                 expected = root_lock_.load(std::memory_order_acquire);
                 if (expected) {
+                    YK_WAIT(YK_W_SPIN, &root_lock_);
                     if (i >= 10) { break; }
                     _mm_pause();
                     continue;
                 }
                 desired = true;
+                YK_VP(YK_RMW, YK_C_TREE, &root_lock_);
                 if (root_lock_.compare_exchange_weak(expected, desired,
                                                 std::memory_order_acq_rel,
                                                 std::memory_order_acquire)) {
@@ -51,6 +55,7 @@ public:
     }
 
     void root_unlock() {
+        YK_VP(YK_STORE, YK_C_TREE, &root_lock_);
         root_lock_.store(false, std::memory_order_release);
     }
 
